@@ -277,6 +277,14 @@ func (x *Exec) call(fr *Frame, st *State, c *ssa.CallCommon, pos token.Pos, site
 		args = append(args, x.get(fr, st, a))
 	}
 	if c.IsInvoke() {
+		if n, ok := types.Unalias(c.Value.Type()).(*types.Named); ok && n.Obj().Pkg() != nil && strings.HasPrefix(n.Obj().Pkg().Path(), "github.com/btcsuite/btclog") {
+			// logging: no effect on the state the contracts talk about (assumption: the package logger is non-nil)
+			x.note("abstracted: logging calls are no-ops (package logger assumed non-nil)")
+			if tt, ok := resT.(*types.Tuple); ok && tt.Len() == 0 {
+				return Value{K: KTuple}
+			}
+			return x.havocValue(st, resT, "log")
+		}
 		recv := x.get(fr, st, c.Value)
 		x.check(fr, st, "nil", Not(Eq(recv.X, nilRef)), pos, "method call on nil interface")
 		if recv.Dyn != nil {
